@@ -3192,6 +3192,19 @@ static int match_address (hawk_sed_t* sed, hawk_sed_cmd_t* cmd)
 	}
 }
 
+static int ensure_lineterm (hawk_ooecs_t* buf)
+{
+	/* G and H join two buffers with a newline. the buffers carry the
+	 * line terminator of the input line, so plain concatenation does it,
+	 * except for the last input line read without a terminator (and for
+	 * a buffer emptied by a substitution on such a line) */
+	if (HAWK_OOECS_LEN(buf) <= 0 || HAWK_OOECS_LASTCHAR(buf) != HAWK_T('\n'))
+	{
+		if (hawk_ooecs_ccat(buf, HAWK_T('\n')) == (hawk_oow_t)-1) return -1;
+	}
+	return 0;
+}
+
 static hawk_sed_cmd_t* exec_cmd (hawk_sed_t* sed, hawk_sed_cmd_t* cmd)
 {
 	int n;
@@ -3337,6 +3350,7 @@ static hawk_sed_cmd_t* exec_cmd (hawk_sed_t* sed, hawk_sed_cmd_t* cmd)
 
 		case HAWK_SED_CMD_HOLD_APPEND:
 			/* append the pattern space to the hold space */
+			if (ensure_lineterm(&sed->e.txt.hold) <= -1) return HAWK_NULL;
 			if (hawk_ooecs_ncat (&sed->e.txt.hold,
 				HAWK_OOECS_PTR(&sed->e.in.line),
 				HAWK_OOECS_LEN(&sed->e.in.line)) == (hawk_oow_t)-1)
@@ -3357,6 +3371,7 @@ static hawk_sed_cmd_t* exec_cmd (hawk_sed_t* sed, hawk_sed_cmd_t* cmd)
 
 		case HAWK_SED_CMD_RELEASE_APPEND:
 			/* append the hold space to the pattern space */
+			if (ensure_lineterm(&sed->e.in.line) <= -1) return HAWK_NULL;
 			if (hawk_ooecs_ncat (&sed->e.in.line,
 				HAWK_OOECS_PTR(&sed->e.txt.hold),
 				HAWK_OOECS_LEN(&sed->e.txt.hold)) == (hawk_oow_t)-1)
